@@ -800,11 +800,11 @@ func main() {
 	rep.Extra["exhaustive_note"] = "all strings up to the stated length over the 8-character alphabet x the stated argument lattice; longer strings are a seeded sample"
 	for _, op := range []string{"len", "iter", "index", "slice", "in", "find", "count", "startswith", "endswith", "split", "splitws", "join", "strip", "lstrip", "rstrip", "replace", "lt", "eq", "mul", "add", "ord", "chr"} {
 		if opCount[op] == 0 {
-			common.Inconclusive("property=C14 vacuous run: operation %s never occurred", op)
+			common.Vacuous("property=C14 vacuous run: operation %s never occurred", op)
 		}
 	}
 	if nonASCII == 0 {
-		common.Inconclusive("property=C14 vacuous run: no non-ASCII case")
+		common.Vacuous("property=C14 vacuous run: no non-ASCII case")
 	}
 	rep.Finish()
 }
